@@ -288,5 +288,81 @@ func genCases(c *lib.Ctx, rng *rand.Rand) []*c20in {
 		}
 		ins = append(ins, in)
 	}
+	// reqlimitlog configured: the dump at every interval end must not influence the limiter, whether
+	// the file can be written or not (directory removed in the middle of the sequence, or never there)
+	for i, in := range ins {
+		if (in.Kind == "boundary" || in.Kind == "random" || in.Kind == "quota") && i%3 == 0 && len(in.Ops) > 4 {
+			if rng.Intn(2) == 0 {
+				in.LogMode = "fault"
+			} else {
+				in.LogMode = "ok"
+				k := 1 + rng.Intn(len(in.Ops)-2)
+				ops := append([]c20op{}, in.Ops[:k]...)
+				ops = append(ops, c20op{Kind: "logfault"})
+				ops = append(ops, in.Ops[k:]...)
+				if rng.Intn(3) == 0 {
+					j := k + 1 + rng.Intn(len(ops)-k-1)
+					ops = append(ops[:j], append([]c20op{{Kind: "logrestore"}}, ops[j:]...)...)
+				}
+				in.Ops = ops
+			}
+		}
+	}
+
+	// 7. the limiter as app.SetupServer wires it: one limiter for /livesim2 and /vod, /reqcount reads it
+	paths := []string{"/livesim2/testpic_2s/Manifest.mpd?nowMS=100000", "/vod/testpic_2s/Manifest.mpd", "/livesim2/none/Manifest.mpd?nowMS=100000",
+		"/vod/none.mpd", "/livesim2/testpic_2s/V300/init.mp4", "/vod/testpic_2s/V300/init.mp4"}
+	for n := 0; n < 24*mult; n++ {
+		in := &c20in{Kind: "server", ViaServer: true, ServerIntS: 3600, Max: int64(1 + rng.Intn(5)), WhiteList: wlPool[rng.Intn(len(wlPool))],
+			LogMode: []string{"", "ok", "fault"}[rng.Intn(3)]}
+		xffs := addrPool(rng, 1+rng.Intn(3))
+		for k := 10 + rng.Intn(25); k > 0; k-- {
+			rc := remotePool[rng.Intn(4)]
+			if rng.Intn(8) == 0 {
+				rc = remotePool[rng.Intn(len(remotePool))]
+			}
+			op := c20op{Kind: "mw", HdrName: "Livesim2-Requests", RemoteAddr: rc.addr, Remote: rc.remote, Path: paths[rng.Intn(len(paths))]}
+			if rng.Intn(2) == 0 {
+				if x := xffs[rng.Intn(len(xffs))]; asciiOnly(x) {
+					op.XFF = x
+				}
+			}
+			in.Ops = append(in.Ops, op)
+			if rng.Intn(4) == 0 {
+				ip := "10.0.0.1"
+				if op.XFF != "" {
+					ip = op.XFF
+				} else if op.Remote != nil {
+					ip = *op.Remote
+				}
+				in.Ops = append(in.Ops, c20op{Kind: "count", IP: ip})
+			}
+		}
+		ins = append(ins, in)
+	}
+	// the same with a one-second interval on the real clock, log file unwritable / removed on the way
+	nsrt := 2
+	if c.Thorough() {
+		nsrt = 8
+	}
+	for n := 0; n < nsrt; n++ {
+		in := &c20in{Kind: "server-realtime", ViaServer: true, ServerIntS: 1, Max: 2, LogMode: []string{"fault", "ok"}[n%2]}
+		mk := func(k int) c20op {
+			return c20op{Kind: "mw", HdrName: "Livesim2-Requests", RemoteAddr: "10.0.0.1:1", Remote: sp("10.0.0.1"), Path: paths[(n+k)%2]}
+		}
+		for ep := 0; ep < 3; ep++ {
+			for k := 0; k < 3+n%2; k++ {
+				in.Ops = append(in.Ops, mk(k))
+			}
+			in.Ops = append(in.Ops, c20op{Kind: "count", IP: "10.0.0.1"})
+			if ep == 0 && in.LogMode == "ok" {
+				in.Ops = append(in.Ops, c20op{Kind: "logfault"})
+			}
+			if ep < 2 {
+				in.Ops = append(in.Ops, c20op{Kind: "sleep", SleepMs: 1400})
+			}
+		}
+		ins = append(ins, in)
+	}
 	return ins
 }
